@@ -49,6 +49,11 @@ type Op struct {
 	// allow-list
 	Bidder string `json:"bidder,omitempty"` // actor name
 	Max    string `json:"max,omitempty"`
+	// More: further entries of the same AddAllowedBidders call, "bidder:max,bidder:max" (the call takes a list).
+	// KeepOnError: the calling module handles a failure of the call itself and keeps what was written
+	// so far (no transaction boundary around the call). Only the C14 histories use these two.
+	More        string `json:"more,omitempty"`
+	KeepOnError bool   `json:"keep_on_error,omitempty"`
 	// EntryAIDOther: the AllowedBidder entry handed to the keeper API carries another auction's id (AID xor 1)
 	// in its own auction_id field, which the API's auctionId argument is documented to override
 	EntryAIDOther bool `json:"entry_aid_other,omitempty"`
@@ -84,6 +89,9 @@ func (o Op) String() string {
 	case "add_allowed", "msg_add_allowed":
 		if o.EntryAIDOther {
 			return fmt.Sprintf("%s(a%d %s max=%s entry.auction_id=%d)", o.Kind, o.AID, o.Bidder, o.Max, o.AID^1)
+		}
+		if o.More != "" {
+			return fmt.Sprintf("%s(a%d %s:%s,%s keep_on_error=%v)", o.Kind, o.AID, o.Bidder, o.Max, o.More, o.KeepOnError)
 		}
 		return fmt.Sprintf("%s(a%d %s max=%s)", o.Kind, o.AID, o.Bidder, o.Max)
 	case "update_allowed":
@@ -339,13 +347,23 @@ func (o Op) Apply(w *world.World, ctx sdk.Context) (sdk.Context, Result) {
 				if o.EntryAIDOther {
 					eid = o.AID ^ 1
 				}
-				res.Err = w.K.AddAllowedBidders(cctx, o.AID, []ftypes.AllowedBidder{{AuctionId: eid, Bidder: msgAddr(o.Bidder), MaxBidAmount: mustInt(o.Max)}})
+				entries := []ftypes.AllowedBidder{{AuctionId: eid, Bidder: msgAddr(o.Bidder), MaxBidAmount: mustInt(o.Max)}}
+				if o.More != "" {
+					for _, e := range strings.Split(o.More, ",") {
+						bm := strings.SplitN(e, ":", 2)
+						entries = append(entries, ftypes.AllowedBidder{AuctionId: eid, Bidder: msgAddr(bm[0]), MaxBidAmount: mustInt(bm[1])})
+					}
+				}
+				res.Err = w.K.AddAllowedBidders(cctx, o.AID, entries)
 			} else {
 				res.Err = w.K.UpdateAllowedBidder(cctx, o.AID, world.A(o.Bidder).Addr, mustInt(o.Max))
 			}
 		}()
 		if res.Err != nil {
 			res.ErrStr = res.Err.Error()
+			if o.KeepOnError && res.Panic == "" {
+				write()
+			}
 			return ctx, res
 		}
 		write()
